@@ -96,6 +96,7 @@ type FuncVC struct {
 	nonnil       map[ssa.Value]bool
 	writes       []writeRec
 	retOrd       int
+	retNum       map[*ssa.Return]int
 	loopOrd      map[*ssa.BasicBlock]int
 	loopBody     map[*ssa.BasicBlock]map[*ssa.BasicBlock]bool
 	backEdge     map[[2]int]bool
@@ -121,6 +122,7 @@ type FuncVC struct {
 type loopHead struct {
 	st      *State
 	phis    map[string]SVal // source name -> value at the header
+	lets    map[string]SVal // ghost constants: values of expressions at the header
 	measure Term
 	hasMeas bool
 }
@@ -829,26 +831,55 @@ func (vc *FuncVC) analyseCFG() []*ssa.BasicBlock {
 			vc.noTerm = append(vc.noTerm, fmt.Sprintf("%s loop %d (%s:%d)", vc.name, i+1, filepath.Base(pos.Filename), pos.Line))
 		}
 	}
-	// reverse post-order over forward edges
-	seen := map[*ssa.BasicBlock]bool{}
-	var post []*ssa.BasicBlock
-	var dfs func(b *ssa.BasicBlock)
-	dfs = func(b *ssa.BasicBlock) {
-		seen[b] = true
-		for _, s := range b.Succs {
-			if vc.backEdge[[2]int{b.Index, s.Index}] || seen[s] {
-				continue
+	// reverse post-order over forward edges. Two orders are computed: the plain one numbers the returns
+	// (obligation names stay what they were), the second one - which visits the successors that leave the
+	// innermost loop first, so that in the reversed order a loop's body precedes whatever follows the loop -
+	// is the processing order: the facts of a later loop then never end up in the queries of an earlier one.
+	innermost := func(b *ssa.BasicBlock) map[*ssa.BasicBlock]bool {
+		var best map[*ssa.BasicBlock]bool
+		for _, body := range vc.loopBody {
+			if body[b] && (best == nil || len(body) < len(best)) {
+				best = body
 			}
-			dfs(s)
 		}
-		post = append(post, b)
+		return best
 	}
-	dfs(fn.Blocks[0])
-	var rpo []*ssa.BasicBlock
-	for i := len(post) - 1; i >= 0; i-- {
-		rpo = append(rpo, post[i])
+	order := func(loopFirst bool) []*ssa.BasicBlock {
+		seen := map[*ssa.BasicBlock]bool{}
+		var post []*ssa.BasicBlock
+		var dfs func(b *ssa.BasicBlock)
+		dfs = func(b *ssa.BasicBlock) {
+			seen[b] = true
+			succs := append([]*ssa.BasicBlock{}, b.Succs...)
+			if loopFirst {
+				if body := innermost(b); body != nil {
+					sort.SliceStable(succs, func(i, j int) bool { return !body[succs[i]] && body[succs[j]] })
+				}
+			}
+			for _, s := range succs {
+				if vc.backEdge[[2]int{b.Index, s.Index}] || seen[s] {
+					continue
+				}
+				dfs(s)
+			}
+			post = append(post, b)
+		}
+		dfs(fn.Blocks[0])
+		var rpo []*ssa.BasicBlock
+		for i := len(post) - 1; i >= 0; i-- {
+			rpo = append(rpo, post[i])
+		}
+		return rpo
 	}
-	return rpo
+	vc.retNum = map[*ssa.Return]int{}
+	for _, b := range order(false) {
+		for _, ins := range b.Instrs {
+			if r, ok := ins.(*ssa.Return); ok {
+				vc.retNum[r] = len(vc.retNum) + 1
+			}
+		}
+	}
+	return order(true)
 }
 
 // ---------------------------------------------------------------- main driver
@@ -1248,6 +1279,15 @@ func (vc *FuncVC) enterLoop(h *ssa.BasicBlock, order []*ssa.BasicBlock) {
 	for _, inv := range vc.fc.Invs[k] {
 		vc.assume(Implies(reach, envH.boolean(inv.E)))
 	}
+	lh.lets = map[string]SVal{}
+	for _, lt := range vc.fc.LoopLets[k] {
+		v := envH.eval(lt.E)
+		if v.Ty.K == KInt {
+			v.T = vc.define("let_"+lt.Name, v.T)
+		}
+		lh.lets[lt.Name] = v
+		envH.vars[lt.Name] = v
+	}
 	for _, h := range vc.fc.LoopHints[k] {
 		if call, ok := h.E.(*ECall); ok {
 			if lm := vc.W.spec.lemma(call.Fn); lm != nil {
@@ -1317,6 +1357,28 @@ func (vc *FuncVC) backEdgeChecks(u, h *ssa.BasicBlock, cond Term) {
 		return nil
 	})
 	env := vc.env(st, vc.withLocals(vars))
+	for n, v := range lh.lets {
+		env.vars[n] = v
+	}
+	for _, bh := range vc.fc.BackHints[k] {
+		call, ok := bh.E.(*ECall)
+		if !ok || vc.W.spec.lemma(call.Fn) == nil {
+			panic("loop backhint must be a lemma application: " + bh.Src)
+		}
+		vc.assume(Implies(cond, instantiateLemma(env, vc.W.spec.lemma(call.Fn), call.Args)))
+	}
+	for j, ba := range vc.fc.BackAsserts[k] {
+		label := ba.Name
+		if label == "" {
+			label = fmt.Sprintf("%d", j+1)
+		}
+		t := env.boolean(ba.E)
+		if ba.When != nil {
+			t = Implies(vc.env(vc.entry, nil).boolean(ba.When), t)
+		}
+		vc.oblige("L", fmt.Sprintf("loop%d/step/%s@b%d", k, label, u.Index), cond, t, vc.propTags("C04"), h.Instrs[0].Pos(), ba.Src)
+		vc.assume(Implies(cond, t))
+	}
 	tags := vc.propTags()
 	for j, inv := range vc.fc.Invs[k] {
 		t := env.boolean(inv.E)
@@ -1329,7 +1391,13 @@ func (vc *FuncVC) backEdgeChecks(u, h *ssa.BasicBlock, cond Term) {
 	}
 	if d := vc.fc.Decr[k]; d != nil && lh.hasMeas {
 		m := env.integer(d.E)
-		vc.oblige("L", fmt.Sprintf("loop%d/decreases@b%d", k, u.Index), cond, And(Ge(lh.measure, IntLit(0)), Lt(m, lh.measure)), vc.propTags("C04"), h.Instrs[0].Pos(), d.Src)
+		goal := And(Ge(lh.measure, IntLit(0)), Lt(m, lh.measure))
+		src := d.Src
+		if d.When != nil {
+			goal = Implies(vc.env(vc.entry, nil).boolean(d.When), goal)
+			src += " when " + exprString(d.When)
+		}
+		vc.oblige("L", fmt.Sprintf("loop%d/decreases@b%d", k, u.Index), cond, goal, vc.propTags("C04"), h.Instrs[0].Pos(), src)
 	}
 }
 
